@@ -4,7 +4,7 @@ TRUSTED_BASE = [
     'rustc/LLVM semantics as modelled by Verus (VIR) and Kani (MIR->goto)',
     'Z3 (bundled with Verus 0.2026.09.13) and CBMC 6.11 with its SAT back end',
     'vstd specifications of std (slices, arrays, Option, integer ops)',
-    'tools/extract.py rules E1-E9 (lexer, attribute/visibility/derive rewriting, contract splice, two desugarings)',
+    'tools/extract.py rules E1-E11 (lexer, attribute/visibility/derive rewriting, contract splice, two desugarings, slices, module constants)',
     'spec/*.rs text is transcribed identically into Verus units and Kani harness crates (mechanical rewrite `spec fn` -> `fn`)',
 ]
 
@@ -78,7 +78,7 @@ NOT_APPLICABLE = {
 REND_CORE = ['render_write_code_all', 'render_buffer_ansi16', 'render_buffer_ansi256', 'render_buffer_rgb_fg', 'render_buffer_rgb_bg',
              'render_buffer_rgb_underline', 'render_color_write_paths', 'render_effect_escapes', 'render_effects_concat',
              'render_style_concat', 'render_reset_io']
-REND_FMT = ['render_display_matches_io_s0', 'render_display_matches_io_s1', 'render_display_matches_io_s2', 'render_display_matches_io_s3', 'render_display_matches_io_s4', 'render_reset_value']
+REND_FMT = ['render_display_matches_io_s0', 'render_display_matches_io_s1', 'render_display_matches_io_s2', 'render_display_matches_io_s3', 'render_display_matches_io_s4', 'render_reset_value', 'render_style_reset_small_flags']
 REND_QUICK = REND_CORE + REND_FMT
 REND_ALL = REND_CORE + REND_FMT
 PROPS['C05'] = {
@@ -90,7 +90,8 @@ PROPS['C05'] = {
     'thorough': {'kani': [{'crate': 'anstyle', 'harnesses': REND_ALL, 'timeout': 3000, 'mem_gb': 8, 'jobs': 8, 'flags': ['-Z', 'stubbing'], 'fmt_direct': True}]},
     'assumptions': ['format_args!/fmt::Arguments dispatch to the Display impl with the options of the format string (std; the harness constructs the Formatter directly, unstable `formatting_options`, because CBMC does not finish on the function pointers of fmt::Arguments)',
                     'S4 (spec/sgr.rs) is the reference SGR interpreter; underline kinds are independent bits (the only reading under which all 4096 effect sets can round-trip)'],
-    'bounded': {h: 'one concrete sample style; format flags (width, fill, alignment, precision, zero padding, alternate) fully symbolic' for h in REND_FMT if h.startswith('render_display')},
+    'bounded': {**{h: 'one concrete sample style; format flags (width, fill, alignment, precision, zero padding, alternate) fully symbolic' for h in REND_FMT if h.startswith('render_display')},
+                'render_style_reset_small_flags': 'sixteen concrete width / precision combinations (twin of the display harnesses for Style::render_reset that stays decidable when the value honours the flags)'},
     'explanation': 'Compositional: every colour buffer and every effect escape interprets (S4) to exactly its colour/effect (complete over all values); Style::write_to is the in-order concatenation of those parts for every style (symbolic, complete); the Display paths are compared piece-by-piece with the io::Write path on five sample styles for every combination of width, fill, alignment, precision, zero-padding and alternate flag (symbolic FormattingOptions on a directly constructed Formatter; bounded in the style only).',
 }
 
@@ -227,8 +228,9 @@ PROPS['C08'] = {
     'explanation': 'Constructor dispatch for all choices, the reported mode, byte-identical forwarding in pass-through mode and routing of the Never mode through the strip stream, all through one lock acquisition per call.',
 }
 PROPS['C08']['thorough'] = {'kani': [dict(PROPS['C08']['quick']['kani'][0], harnesses=PROPS['C08']['quick']['kani'][0]['harnesses'] + [
-    'auto_new_dispatch', 'auto_passthrough_forwards', 'auto_never_is_strip_stream', 'auto_auto_uses_choice',
-    'auto_never_one_write', 'auto_never_all_write', 'auto_never_vectored_write', 'auto_never_flushes'], timeout=3000)]}
+    'auto_new_dispatch', 'auto_passthrough_forwards'], timeout=3000)]}
+# not registered (CBMC: > 16 min, 7-9 GB each, also with the io::Error recursion limit): auto_never_is_strip_stream,
+# auto_auto_uses_choice, auto_never_{one_write,all_write,vectored_write,flushes} (real scanner, scripted mock)
 
 PROPS['C12'] = {
     'level': 'model_checking',
@@ -270,7 +272,7 @@ PROPS['C17'] = {
     'bounded': {h: 'concrete colour pairs (every colour alone in each slot, no colour, sixteen two-colour pairs with every colour once per slot; every failure point for a two-colour, a one-colour and a no-colour write); data 1-2 symbolic bytes, any prefix of the data accepted' for h in C17_H},
     'rule': 'one case = one concrete colour pair and failure point x all data bytes x all accepted prefixes; non-trivial = verified with short-write / full-write / error witnesses reached',
     'assumptions': ['std `write!(stream, ..)` on an io::Write renders the arguments, write_all()s the bytes and returns the I/O error (documented behaviour of io::Write::write_fmt; CBMC does not finish on the std implementation itself)', 'trait impls for Vec<u8>, File, dyn Write, stdio and their locks forward to the same function (one-line forwards, not harnessed)', 'S4 (spec/sgr.rs) as SGR reference',
-                    '240 of the 256 two-colour pairs are not run (the function treats the two slots independently; with symbolic colours CBMC reports a spurious failure, see DESIGN 8.23); all 17 x 17 x 5 cases pass natively (wincon_ansi_native_all_pairs in the replay build)',
+                    'quick tier: 240 of the 256 two-colour pairs are not run (the function treats the two slots independently; with symbolic colours CBMC reports a spurious failure, see DESIGN 8.23); thorough tier: all 17 x 17 pairs x all five failure points (100 harnesses, 25 min); all 17 x 17 x 5 cases also pass natively (wincon_ansi_native_all_pairs in the replay build)',
                     '"stripping it gives back the data" follows from C01 for pure-SGR codes (the codes are shown to be pure SGR by the S4 reading); not re-run here'],
     'explanation': 'Kani checks write_colored against a scripted writer: exact call sequence (fg code, bg code, one plain write of the caller\'s slice, reset; stops at the first error), every code read through S4 on the running terminal state (pure SGR, selects exactly the requested colour, reset restores the default), returned count is what the writer accepted for the data, inner errors surface.',
 }
